@@ -22,7 +22,7 @@ type chanState struct {
 
 var chans = map[uintptr]*chanState{}
 
-func resetChans() { chans = map[uintptr]*chanState{} }
+func resetChans() { chans = map[uintptr]*chanState{}; timersStarted = 0 }
 
 func stateOf(ch interface{}) *chanState {
 	v := reflect.ValueOf(ch)
@@ -197,6 +197,42 @@ func Choose(label string, n int) int {
 	return choice
 }
 
+// TimerHook, if set, is called by a virtual timer at the moment it fires.
+var TimerHook func()
+
+// TrySend models select { case ch <- v: ...; default: ... }: a non-blocking send.
+func TrySend[C ~chan T | ~chan<- T, T any](ch C, v T) bool {
+	if active == nil {
+		select {
+		case ch <- v:
+			return true
+		default:
+			return false
+		}
+	}
+	if aborting() {
+		return false
+	}
+	Point("try-send")
+	s := stateOf(ch)
+	if s.closed {
+		panic("send on closed channel")
+	}
+	if len(s.queue) < s.cap {
+		s.queue = append(s.queue, v)
+		s.sent++
+		return true
+	}
+	return false // an unbuffered channel has no parked receiver registry here: treated as not ready (conservative)
+}
+
+// TimerBudget bounds how many virtual timers of one execution may fire at all (-1: unlimited). Timers
+// beyond the budget never fire: a timeout is a deviation from the default environment and the harness
+// iterates the budget 0,1,2 (code that relies on a timeout to recover from a lost message then blocks
+// forever, which the scheduler reports as a deadlock).
+var TimerBudget = -1
+var timersStarted = 0
+
 // After models time.After: a timer whose firing is a schedulable event (a thread of its own).
 func After(d time.Duration) <-chan time.Time {
 	ch := make(chan time.Time, 1)
@@ -204,8 +240,17 @@ func After(d time.Duration) <-chan time.Time {
 		return time.After(d)
 	}
 	stateOf(ch).name = fmt.Sprintf("timer(%s)", d)
+	if TimerBudget >= 0 {
+		if timersStarted >= TimerBudget {
+			return ch
+		}
+		timersStarted++
+	}
 	Go("timer", func() {
 		Point("timer fires")
+		if TimerHook != nil {
+			TimerHook()
+		}
 		ChanSend(ch, time.Time{})
 	})
 	return ch
